@@ -20,6 +20,7 @@ import (
 	"runtime/debug"
 	"sort"
 	"strings"
+	"sync"
 	"testing"
 	"time"
 
@@ -256,6 +257,7 @@ func check(t *testing.T, tg *target, base int) {
 	r := evid.Get(id)
 	evid.Finish(t, r)
 	r.SetRule(ruleText)
+	ids()
 
 	if f := os.Getenv("VERIF_REPLAY_FILE"); f != "" {
 		b, err := os.ReadFile(f)
@@ -265,6 +267,23 @@ func check(t *testing.T, tg *target, base int) {
 		var c kase
 		if json.Unmarshal(b, &c) != nil || c.Target != tg.name {
 			t.Skip("replay is for another target")
+		}
+		// a replayed case that has the shape of a listed finding is that finding's witness
+		for _, sh := range tg.shapes {
+			if !evid.Known(sh.sig) || !sh.match(&c) {
+				continue
+			}
+			still := false
+			if sh.child || sh.hang {
+				still = childPanics(t, &c)
+			} else {
+				_, _, err := tg.exec(&c)
+				still = err != nil
+			}
+			if still {
+				r.Witness(sh.sig)
+			}
+			return
 		}
 		if _, sig, err := tg.exec(&c); err != nil {
 			t.Fatalf("%s", evid.Violation(id, sig, fmt.Sprintf("target=%s %v", tg.name, err)))
@@ -279,15 +298,7 @@ func check(t *testing.T, tg *target, base int) {
 			}
 			w := sh.witness()
 			if sh.child || sh.hang {
-				// one child run per signature and process (several targets may share a signature)
-				res, done := childResult[sh.sig]
-				if !done {
-					res = childPanics(t, &w)
-					childResult[sh.sig] = res
-				}
-				if res {
-					r.Witness(sh.sig)
-				}
+				startChildWitnesses(t) // collected by TestC37_ZChildWitnesses, the last test of the binary
 				continue
 			}
 			if _, _, err := tg.exec(&w); err != nil {
@@ -343,7 +354,31 @@ func childPanics(t *testing.T, c *kase) bool {
 	return strings.Contains(s, "panic:") || strings.Contains(s, "C37-CHILD-PANIC") || strings.Contains(s, "C37-CHILD-HANG")
 }
 
-var childResult = map[string]bool{}
+// Child witnesses are costly (a fresh process each): they are all started together, once,
+// by the first target that needs one, and each signature is run once per process.
+var (
+	childOnce   sync.Once
+	childResult = map[string]chan bool{}
+)
+
+func startChildWitnesses(t *testing.T) {
+	childOnce.Do(func() {
+		for _, tg := range allTargets {
+			for _, sh := range tg.shapes {
+				if !(sh.child || sh.hang) || sh.witness == nil || !evid.Known(sh.sig) {
+					continue
+				}
+				if _, ok := childResult[sh.sig]; ok {
+					continue
+				}
+				ch := make(chan bool, 1)
+				childResult[sh.sig] = ch
+				w := sh.witness()
+				go func() { ch <- childPanics(t, &w) }()
+			}
+		}
+	})
+}
 
 var allTargets = map[string]*target{}
 
@@ -367,8 +402,9 @@ func TestC37_ChildWitness(t *testing.T) {
 	if tg == nil {
 		t.Skip("unknown target")
 	}
-	// a case takes milliseconds; one that is still running after 6 s is spinning
-	wd := time.AfterFunc(6*time.Second, func() {
+	warm() // environment start-up is not part of the case
+	// a case takes milliseconds; one that is still running after 8 s is spinning
+	wd := time.AfterFunc(8*time.Second, func() {
 		fmt.Println("C37-CHILD-HANG")
 		os.Exit(4)
 	})
